@@ -309,6 +309,9 @@ func (s *Solver) check1(asserts []*Term, want []*Term) (string, []*big.Int) {
 		}
 		if l == "sat" || l == "unsat" || l == "unknown" || l == "timeout" {
 			res = l
+			if l == "unknown" || l == "timeout" {
+				s.lastErr = "solver answered unknown (timeout)"
+			}
 			break
 		}
 		// warnings etc.: ignore
